@@ -6,6 +6,7 @@ import (
 	"math"
 	"math/big"
 	"math/rand"
+	"sync"
 	"time"
 
 	"verifharness/internal/px"
@@ -238,4 +239,64 @@ func familyC13(w *px.Writer, r *rand.Rand, thorough bool) {
 			caseOptFlat(w, "optflat-random", i, q)
 		}
 	}
+	concurrentC13(w, r)
+}
+
+// concurrentC13: Recalculate / Optimize are methods on values - calls from several goroutines
+// at once must each return what the same call returns alone (C13 for every call; a shared
+// scratch variable inside the package would also be a data race, C20)
+func concurrentC13(w *px.Writer, r *rand.Rand) {
+	type cs struct {
+		i    int64
+		q    uint64
+		m    int64
+		want string
+	}
+	var cases []cs
+	for len(cases) < 48 {
+		q := px.LogUniform(r, 1<<40) + 2
+		m := int64(px.LogUniform(r, 1<<22)) + 1
+		i := int64(px.LogUniform(r, 1<<40)) + 1
+		if len(cases)%3 == 0 {
+			m = int64(limit.OptimizationInterval)
+		}
+		got, err := limit.Rate{Interval: time.Duration(i), Quantity: q}.Recalculate(time.Duration(m))
+		cases = append(cases, cs{i, q, m, showRate(got, err)})
+	}
+	var mu sync.Mutex
+	bad := map[string]string{}
+	var wg sync.WaitGroup
+	for g := 0; g < 8; g++ {
+		wg.Add(1)
+		go func(g int) {
+			defer wg.Done()
+			for k := 0; k < 400; k++ {
+				c := cases[(k*7+g*5)%len(cases)]
+				func() {
+					defer func() {
+						if p := recover(); p != nil {
+							mu.Lock()
+							bad[fmt.Sprintf("recalc %d %d %d", c.i, c.q, c.m)] = fmt.Sprintf("panic: %v", p)
+							mu.Unlock()
+						}
+					}()
+					got, err := limit.Rate{Interval: time.Duration(c.i), Quantity: c.q}.Recalculate(time.Duration(c.m))
+					if s := showRate(got, err); s != c.want {
+						mu.Lock()
+						bad[fmt.Sprintf("recalc %d %d %d", c.i, c.q, c.m)] = s + " (alone: " + c.want + ")"
+						mu.Unlock()
+					}
+				}()
+			}
+		}(g)
+	}
+	wg.Wait()
+	n := 0
+	for k, v := range bad {
+		if n++; n > 5 {
+			break
+		}
+		w.Fail("C13 concurrent: %s called from 8 goroutines at once returned %s [replay: %s]", k, v, k)
+	}
+	w.Count("concurrent-calls")
 }
